@@ -281,3 +281,104 @@ pub proof fn lemma_two_elems_ref(s: Set<&ValueReduction>, a: &ValueReduction, b:
     assert(s =~= t.insert(b).insert(a));
     assert(!t.contains(b) && !t.insert(b).contains(a));
 }
+
+// ---- statement level (Statement::propagate_values): the value environment stays sound
+pub closed spec fn dummy_stmt_level() -> bool { true }
+pub open spec fn log_sound(a: LogArgument, s: State, p: int) -> bool {
+    match a { LogArgument::Expr(e) => annot_sound(*e, s, p), _ => true }
+}
+pub open spec fn all_log_sound(v: Seq<LogArgument>, n: int, s: State, p: int) -> bool
+    decreases n
+{
+    if n <= 0 || n > v.len() { true } else { all_log_sound(v, n - 1, s, p) && log_sound(v[n - 1], s, p) }
+}
+pub open spec fn log_canon(a: LogArgument, p: int) -> bool {
+    match a { LogArgument::Expr(e) => canon_tree(*e, p), _ => true }
+}
+pub open spec fn all_log_canon(v: Seq<LogArgument>, n: int, p: int) -> bool
+    decreases n
+{
+    if n <= 0 || n > v.len() { true } else { all_log_canon(v, n - 1, p) && log_canon(v[n - 1], p) }
+}
+pub proof fn lemma_all_log_canon_elem(v: Seq<LogArgument>, n: int, p: int, k: int)
+    requires 0 <= k < n <= v.len(), all_log_canon(v, n, p)
+    ensures log_canon(v[k], p)
+    decreases n
+{ if k < n - 1 { lemma_all_log_canon_elem(v, n - 1, p, k); } }
+pub proof fn lemma_all_log_canon_intro(v: Seq<LogArgument>, n: int, p: int)
+    requires 0 <= n <= v.len(), forall|k: int| 0 <= k < n ==> log_canon(#[trigger] v[k], p)
+    ensures all_log_canon(v, n, p)
+    decreases n
+{ if n > 0 { lemma_all_log_canon_intro(v, n - 1, p); } }
+pub open spec fn log_step_ok(a0: LogArgument, a1: LogArgument, env: ValueEnvironment, s: State) -> bool {
+    match (a0, a1) {
+        (LogArgument::Expr(e0), LogArgument::Expr(e1)) => step_ok(*e0, *e1, env, s),
+        (LogArgument::String(x), LogArgument::String(y)) => true,
+        _ => false,
+    }
+}
+pub proof fn lemma_log_step_refl(a: LogArgument, env: ValueEnvironment, s: State)
+    ensures log_step_ok(a, a, env, s)
+{
+    match a { LogArgument::Expr(e) => { lemma_step_refl(*e, env, s); } _ => {} }
+}
+pub proof fn lemma_log_step(v0: Seq<LogArgument>, v1: Seq<LogArgument>, n: int, env: ValueEnvironment, s: State)
+    requires v0.len() == v1.len(), 0 <= n <= v0.len(), forall|k: int| 0 <= k < n ==> log_step_ok(#[trigger] v0[k], v1[k], env, s)
+    ensures
+        field_ok(env_prime(env)) && env_sound(env, s, env_prime(env)) && all_log_sound(v0, n, s, env_prime(env)) ==> all_log_sound(v1, n, s, env_prime(env)),
+    decreases n
+{
+    if n > 0 {
+        lemma_log_step(v0, v1, n - 1, env, s);
+        assert(log_step_ok(v0[n - 1], v1[n - 1], env, s));
+        match (v0[n - 1], v1[n - 1]) {
+            (LogArgument::Expr(e0), LogArgument::Expr(e1)) => {
+                assert(step_ok(*e0, *e1, env, s));
+                assert(log_sound(v0[n - 1], s, env_prime(env)) == annot_sound(*e0, s, env_prime(env)));
+                assert(log_sound(v1[n - 1], s, env_prime(env)) == annot_sound(*e1, s, env_prime(env)));
+            }
+            (LogArgument::String(_), LogArgument::String(_)) => {
+                assert(log_sound(v0[n - 1], s, env_prime(env)) && log_sound(v1[n - 1], s, env_prime(env)));
+            }
+            _ => { assert(false); }
+        }
+        assert(all_log_sound(v1, n, s, env_prime(env)) == (all_log_sound(v1, n - 1, s, env_prime(env)) && log_sound(v1[n - 1], s, env_prime(env))));
+        assert(all_log_sound(v0, n, s, env_prime(env)) == (all_log_sound(v0, n - 1, s, env_prime(env)) && log_sound(v0[n - 1], s, env_prime(env))));
+    }
+}
+// every constant recorded inside the statement is the value of its node; the statement's own constant is the value assigned
+pub open spec fn stmt_sound(st: Statement, s: State, p: int) -> bool {
+    match st {
+        Statement::Declaration { dimensions, .. } => all_sound(dimensions@, dimensions@.len() as int, s, p),
+        Statement::IfThenElse { cond, .. } => annot_sound(cond, s, p),
+        Statement::Return { value, .. } => annot_sound(value, s, p),
+        Statement::Substitution { meta, rhe, .. } => annot_sound(rhe, s, p) && (vk_of(meta) is Some ==> ev(rhe, s, p) == Some(val(vk_of(meta).unwrap()))),
+        Statement::ConstraintEquality { lhe, rhe, .. } => annot_sound(lhe, s, p) && annot_sound(rhe, s, p),
+        Statement::LogCall { args, .. } => all_log_sound(args@, args@.len() as int, s, p),
+        Statement::Assert { arg, .. } => annot_sound(arg, s, p),
+    }
+}
+pub open spec fn stmt_canon(st: Statement, p: int) -> bool {
+    match st {
+        Statement::Declaration { dimensions, .. } => all_canon(dimensions@, dimensions@.len() as int, p),
+        Statement::IfThenElse { cond, .. } => canon_tree(cond, p),
+        Statement::Return { value, .. } => canon_tree(value, p),
+        Statement::Substitution { meta, rhe, .. } => canon_tree(rhe, p) && (vk_of(meta) is Some ==> canon_red(vk_of(meta).unwrap(), p)),
+        Statement::ConstraintEquality { lhe, rhe, .. } => canon_tree(lhe, p) && canon_tree(rhe, p),
+        Statement::LogCall { args, .. } => all_log_canon(args@, args@.len() as int, p),
+        Statement::Assert { arg, .. } => canon_tree(arg, p),
+    }
+}
+// s is an execution in which this statement holds: an SSA variable assigned here has the value of its right-hand side
+pub open spec fn consistent(st: Statement, s: State, p: int) -> bool {
+    match st {
+        Statement::Substitution { var, rhe, .. } => vn_versioned(var) && !(rhe is Update) && ev(rhe, s, p) is Some ==> s(var) == ev(rhe, s, p).unwrap(),
+        _ => true,
+    }
+}
+// what one call of Statement::propagate_values guarantees for a fixed state
+pub open spec fn stmt_step_ok(pre: Statement, post: Statement, env0: ValueEnvironment, env1: ValueEnvironment, s: State) -> bool {
+    let p = env_prime(env0);
+    consistent(post, s, p) == consistent(pre, s, p)
+    && (field_ok(p) && env_sound(env0, s, p) && stmt_sound(pre, s, p) && consistent(pre, s, p) ==> env_sound(env1, s, p) && stmt_sound(post, s, p))
+}
